@@ -35,6 +35,9 @@ RowOK(r) ==
   /\ (r.outcome = "derivative" /\ r.stable) => r.agrees         \* silently wrong
 \* a guard case (an unsupported request) must fail loudly
 GuardOK(r) == r.outcome = "raised"
+\* a non-differentiable (integer/boolean valued or piecewise constant) function called on a traced value (C14): it returns a plain value
+\* equal to NumPy's, and blocks derivative flow: d/dx sum(x * f(x)) = f(x)
+NdOK(r) == r.plain_eq /\ r.unboxed /\ r.blocks
 \* implementation binding: the observed outcome is the one the decision table predicts from the registries (drift only)
 PredictedOK(r) == \/ r.kind = "unknown"
                   \/ (Outcome(r.kind, TRUE) = "node" /\ r.outcome \in {"derivative", "raised"})      \* a rule may still refuse an option
